@@ -1009,7 +1009,8 @@ func (fc *FnCtx) havocForLoop(st *State, ms *modSet, entry *State) {
 		}
 	}
 	// ghost variables may be changed by effects in the loop: havoc those assigned by on-call effects
-	if fc.contract != nil && (ms.calls) {
+	// (also when the calls in the loop are otherwise effect-free: `nohavoc` on-calls still run their ghost effects)
+	if fc.contract != nil {
 		for _, g := range fc.contract.Ghosts {
 			if fc.ghostMayChange(g.Name) && (ms.ghostsAll || ms.ghosts[g.Name]) {
 				st.ghost[g.Name] = fc.freshGhost(g)
